@@ -67,7 +67,7 @@ _num = st.one_of(st.integers(-4, 4).map(lambda v: ["i", v]),
                  st.sampled_from(["1.5", "-2.25", "-0.0", "1e308", "inf", "-inf", "nan", "0.1"]).map(lambda v: ["f", v]))
 _int = st.one_of(st.integers(-4, 8), st.sampled_from([2 ** 70, -2 ** 65])).map(lambda v: ["i", v])
 _str = _text.map(lambda v: ["s", v])
-_names = st.sampled_from([None, None, "myname", "with 'quote'", "K7", "Plain1", "back\\slash"])
+_names = st.sampled_from([None, None, "myname", "with 'quote'", "K7", "@cls1", "back\\slash", "@cls00017_left", "@cls000123"])
 
 
 @st.composite
@@ -190,7 +190,7 @@ def execute(case):
     cls = ms.C20_CLASSES[case["cls"]]
     kw = {k: _dec(v, marks) for k, v in case["state"].items()}
     if case["name"] is not None:
-        kw["name"] = case["name"]
+        kw["name"] = case["name"].replace("@cls", case["cls"])      # names that merely resemble automatic ones
         marks.add("explicit_name")
     if case["cls"] != "Plain":
         marks.add("positional_ctor_parameter")
